@@ -1,11 +1,11 @@
 """C04 — ticks are serialised, carry one time each, and time never runs backwards."""
 from . import simprop
 
-MODULES = ["TickitModel.Props.C04", "TickitModel.Props.C01", "TickitModel.Props.C01Live", "TickitModel.Props.C04Mono", "TickitModel.Props.C05"]
+MODULES = ["TickitModel.Props.C04", "TickitModel.Props.C01", "TickitModel.Props.C01Live", "TickitModel.Props.C04Mono", "TickitModel.Props.C05", "TickitModel.Props.FlatInt"]
 THEOREMS = ["one_time_per_tick", "tick_complete", "wake_not_before", "time_monotone", "tick_time_provenance",
             "within_extent", "finished_iff", "resolved_iff_answered", "tickRun_exists",
             "master_wake_not_before", "master_time_monotone", "master_startTick_monotone", "master_times_sorted", "master_past_callback_decreases",
-            "system_callAt_not_past", "nested_tick_callAt_not_past", "answer_callAt_not_past", "sim_wake_not_before", "sim_time_monotone", "tickLevel_once"]
+            "system_callAt_not_past", "nested_tick_callAt_not_past", "answer_callAt_not_past", "sim_wake_not_before", "sim_time_monotone", "tickLevel_once", "time_monotoneI", "wake_not_beforeI", "time_not_monotone_untimely"]
 ANCHORS = ["src/tickit/core/management/ticker.py", "src/tickit/core/management/schedulers/master.py",
            "src/tickit/core/management/schedulers/nested.py", "src/tickit/core/components/system_component.py"]
 TECHNIQUE = "Lean 4 theorems (a tick finishes only when every member of its extent answered, all dispatches carry the tick time, tick times non-decreasing when no callback is in the past) + trace validation of real runs incl. nested ticks inside outer ticks"
